@@ -14,13 +14,16 @@ Limits == IF IOEnv.LIMITS = "012" THEN { 0, 1, 2 } ELSE { 0, 1 }
 Endpoints == { "e1", "e2" }
 Tokens == { << >>, << 7, 9 >> }
 Paths == { "a", "b/c" }
+\* notification rounds also name a path nobody registers that differs from a registered one only by
+\* what a normalisation would fold (a no-op in the specification: the registry is keyed by the exact string)
+ProbePaths == Paths \cup { "/a" }
 \* boundary message ids: the model is symmetric in them, the implementation may not be
 Mids == { 0, 65535 }
 
 Calls ==
      { [op |-> "register", ep |-> e, tok |-> k, p |-> p] : e \in Endpoints, k \in Tokens, p \in Paths }
   \cup { [op |-> "deregister", ep |-> e, tok |-> k, p |-> p] : e \in Endpoints, k \in Tokens, p \in Paths }
-  \cup { [op |-> "changed", p |-> p, mid |-> m, con |-> c] : p \in Paths, m \in Mids, c \in BOOLEAN }
+  \cup { [op |-> "changed", p |-> p, mid |-> m, con |-> c] : p \in ProbePaths, m \in Mids, c \in BOOLEAN }
   \cup { [op |-> "ack", ep |-> e, mid |-> m] : e \in Endpoints, m \in Mids }
   \cup { [op |-> "limit", n |-> n] : n \in Limits }
 
@@ -38,12 +41,14 @@ Spec == Init /\ [][Next]_vars
 Bound == TLCGet("level") <= Depth + 1
 
 Inv == OneObserverPerEndpoint(s)
-StepOk == StepProps(s, last', s')
+\* (as action constraints these are evaluated on every transition; Assert makes a failure an error
+\* instead of a silently discarded transition)
+StepOk == Assert(StepProps(s, last', s'), << "step property violated by the specification's own step", last' >>)
 \* the code-shaped step is one of the steps the property allows
-Refines == s' \in ObsAllowed(s, last')
+Refines == Assert(s' \in ObsAllowed(s, last'), << "code-shaped step outside what the property allows", last' >>)
 
 Proj(st) == [limit |-> st.limit,
-             res |-> [p \in Paths |-> IF Present(st, p)
+             res |-> [p \in ProbePaths |-> IF Present(st, p)
                                       THEN [present |-> TRUE, seq |-> st.res[p].seq, obs |-> st.res[p].obs]
                                       ELSE [present |-> FALSE, seq |-> 0, obs |-> << >>]]]
 Emit == EmitOn => CSVWrite("%1$s", << ToJson([h |-> h', st |-> Proj(s')]) >>, IOEnv.OUT)
